@@ -12,6 +12,14 @@ Per generated C source three modules are compiled:
      differs must raise; its unmutated neighbours must not.
   D  the mutated structs / constants declared with '...': no error, the
      compiler's layout and values are used.
+  PA the structs under '#pragma pack(1)' in the source and cdef(packed=True):
+     agreement with the compiler's packed layout, no error.
+  PM packed source, packed cdef with the mutated structs: a mutation that moves
+     a field or changes the size must raise.
+  PN cdef(packed=True) over a source that is *not* packed: must raise exactly
+     for the structs whose natural layout has padding.
+Constants are also used as array lengths inside type strings ('char[K3]'):
+the agreeing module gives sizeof == value, the mutated one must raise.
 """
 import os, sys, random, struct
 from vlib import core, modbuild
@@ -43,6 +51,15 @@ def layout(fields):
         maxal = max(maxal, al)
     total = (off + maxal - 1) // maxal * maxal
     return out, max(total, 1)
+
+
+def packed_layout(fields):
+    off, out = 0, []
+    for name, (T, sz), n in fields:
+        size = sz * (n or 1)
+        out.append((name, off, size))
+        off += size
+    return out, max(off, 1)
 
 
 def render_struct(name, fields, dots=False):
@@ -80,8 +97,10 @@ def gen_source(seed):
     return items
 
 
-def c_source(items):
+def c_source(items, packed=False):
     out = ['#include <stdint.h>', '#include <stddef.h>']
+    if packed:
+        out.append('#pragma pack(1)')
     for it in items:
         k = it['kind']
         if k == 'struct':
@@ -154,6 +173,25 @@ def cdef_text(items, mutated=None, dots=False):
     return '\n'.join(out) + '\n'
 
 
+def cdef_structs(items, mutated=None, helpers=False):
+    out = []
+    for idx, it in enumerate(items):
+        if it['kind'] != 'struct':
+            continue
+        m = (mutated or {}).get(idx)
+        out.append(render_struct(it['name'], m['fields'] if m else it['fields']))
+    text = {'text': '\n'.join(out) + '\n', 'kwds': {'packed': True}}
+    if not helpers:
+        return [text]
+    h = []
+    for it in items:
+        if it['kind'] == 'struct':
+            h.append('size_t sz_%s(void);' % it['name'])
+            for fn, _, _ in it['fields']:
+                h.append('size_t of_%s_%s(void);' % (it['name'], fn))
+    return [text, '\n'.join(h) + '\n']
+
+
 def mutate(seed, items):
     rnd = random.Random(seed ^ 0xabcdef)
     mut = {}
@@ -207,6 +245,12 @@ def specs_for(d, seed, tag):
         {'name': '_c12m_%s' % tag, 'kind': 'api', 'cdef': cdef_text(items, mut), 'source': src,
          'dir': d},
         {'name': '_c12d_%s' % tag, 'kind': 'api', 'cdef': cdef_text(items, mut, dots=True),
+         'source': src, 'dir': d},
+        {'name': '_c12pa_%s' % tag, 'kind': 'api', 'cdef': cdef_structs(items, None, True),
+         'source': c_source(items, packed=True), 'dir': d},
+        {'name': '_c12pm_%s' % tag, 'kind': 'api', 'cdef': cdef_structs(items, mut),
+         'source': c_source(items, packed=True), 'dir': d},
+        {'name': '_c12pn_%s' % tag, 'kind': 'api', 'cdef': cdef_structs(items, None),
          'source': src, 'dir': d}]
 
 
@@ -269,6 +313,9 @@ def child_case(st, case):
     A = importlib.import_module(sp[0]['name'])
     M = importlib.import_module(sp[1]['name'])
     D = importlib.import_module(sp[2]['name'])
+    PA = importlib.import_module(sp[3]['name'])
+    PM = importlib.import_module(sp[4]['name'])
+    PN = importlib.import_module(sp[5]['name'])
     errs = (A.ffi.error,)
     try:
         from cffi import VerificationError
@@ -308,6 +355,15 @@ def child_case(st, case):
                         A.ffi.integer_const(it['name']) != it['value']:
                     rep.bad('constant-value', '%s = %r, source says %d' %
                             (it['name'], getattr(A.lib, it['name']), it['value']), detail)
+                if it['value'] > 0:
+                    sz = A.ffi.sizeof('char[%s]' % it['name'])
+                    sz2 = A.ffi.sizeof(A.ffi.typeof('short(*)[%s]' % it['name']).item)
+                    rep.stat('A_constants_as_array_length')
+                    if sz != it['value'] or sz2 != 2 * it['value']:
+                        rep.bad('constant-as-array-length', 'sizeof(char[%s]) = %r, sizeof(short'
+                                '[%s]) = %r, source says %s = %d' % (it['name'], sz, it['name'],
+                                                                     sz2, it['name'], it['value']),
+                                detail)
                 rep.stat('A_constants')
             elif k == 'enum':
                 rep.case(('A', k, it['name'], tuple(it['values'])))
@@ -354,6 +410,80 @@ def child_case(st, case):
         except Exception as e:
             rep.bad('agreement-raised:%s:%s' % (k, type(e).__name__), '%s %s in the agreeing '
                     'module raised %s: %s' % (k, it['name'], type(e).__name__, str(e)[:200]), detail)
+        # ---------------- packed modules ----------------
+        if k == 'struct':
+            pl0, pt0 = packed_layout(it['fields'])
+            nl0, nt0 = layout(it['fields'])
+            decl0 = render_struct(it['name'], it['fields'])
+            try:
+                size, offs = use_struct(PA, it, it['fields'])
+                csz = getattr(PA.lib, 'sz_' + it['name'])()
+                coffs = [(fn, getattr(PA.lib, 'of_%s_%s' % (it['name'], fn))())
+                         for fn, _, _ in it['fields']]
+                rep.case(('PA', decl0), nontrivial=len(it['fields']) >= 2,
+                         sample={'module': 'PA (packed)', 'decl': decl0})
+                rep.stat('PA_structs')
+                if size != csz or offs != coffs:
+                    rep.bad('packed-layout-differs-from-compiler', '%s: ffi size %d offsets %r, '
+                            'compiler %d %r' % (it['name'], size, offs, csz, coffs), detail)
+                if pt0 != csz or [(n, o) for n, o, s_ in pl0] != coffs:
+                    rep.bad('harness-layout-model', 'packed model differs from the compiler for '
+                            + decl0, detail)
+            except Exception as e:
+                rep.bad('agreement-raised:packed-struct:%s' % type(e).__name__, '%s in the '
+                        'agreeing packed module raised %s: %s' % (decl0, type(e).__name__,
+                                                                  str(e)[:200]), detail)
+
+            def pattempt(mod, fields):
+                try:
+                    return ('ok', use_struct(mod, it, fields))
+                except errs as e:
+                    return ('err', type(e).__name__, str(e)[:160])
+                except Exception as e:
+                    return ('other', type(e).__name__, str(e)[:160])
+            # cdef(packed=True) over an unpacked source
+            rN = pattempt(PN, it['fields'])
+            # cffi also compares the total alignment (1 when packed)
+            ndiff = nt0 != pt0 or nl0 != pl0 or any(sz > 1 for _, (T, sz), n in it['fields'])
+            rep.case(('PN', decl0), nontrivial=len(it['fields']) >= 2)
+            rep.stat('PN_structs_with_padding' if ndiff else 'PN_structs_without_padding')
+            if ndiff and rN[0] == 'ok':
+                rep.bad('mismatch-not-detected:packed-cdef-unpacked-source', 'cdef(packed=True) %s '
+                        'but the source is not packed (natural size %d, packed %d): using it gave '
+                        '%r' % (decl0, nt0, pt0, rN[1]), detail)
+            elif ndiff and rN[0] == 'other':
+                rep.bad('mismatch-wrong-exception:packed-struct', '%s: %r' % (decl0, rN), detail)
+            elif not ndiff and rN[0] != 'ok':
+                rep.bad('harmless-packed-raised', '%s has no padding but cdef(packed=True) raised '
+                        '%r' % (decl0, rN), detail)
+            # packed source, packed mutated cdef
+            pm = mut.get(idx)
+            if pm is not None:
+                pl1, pt1 = packed_layout(pm['fields'])
+                orig = dict((n, (o, s_)) for n, o, s_ in pl0)
+                pdiff = pt0 != pt1 or any(orig.get(n) != (o, s_) for n, o, s_ in pl1)
+                decl1 = render_struct(it['name'], pm['fields'])
+                rP = pattempt(PM, pm['fields'])
+                rep.case(('PM', decl1), sample={'module': 'PM (packed)', 'mutation': pm['op'],
+                                                'decl': decl1})
+                rep.stat('PM_mutated_' + pm['op'])
+                if pdiff and rP[0] == 'ok':
+                    rep.bad('mismatch-not-detected:packed-struct:' + pm['op'], 'packed cdef %s '
+                            'disagrees with the packed C source %s but using it gave %r' %
+                            (decl1, decl0, rP[1]), detail)
+                elif pdiff and rP[0] == 'other':
+                    rep.bad('mismatch-wrong-exception:packed-struct', '%s: %r' % (decl1, rP), detail)
+                elif not pdiff and rP[0] != 'ok':
+                    rep.bad('harmless-mutation-raised:packed-struct', '%s has the same packed '
+                            'layout but raised %r' % (decl1, rP), detail)
+                elif pdiff:
+                    rep.stat('PM_mismatches_detected')
+            else:
+                rP = pattempt(PM, it['fields'])
+                rep.stat('PM_unmutated_neighbours')
+                if rP[0] != 'ok':
+                    rep.bad('unmutated-item-raised:packed-struct', '%s is not mutated but using it '
+                            'in the mutated packed module raised %r' % (decl0, rP), detail)
         # ---------------- modules M and D ----------------
         if k not in ('struct', 'const', 'enum'):
             continue
@@ -403,6 +533,22 @@ def child_case(st, case):
                     (decl, rM), detail)
         elif differs:
             rep.stat('M_mismatches_detected')
+        if k == 'const' and differs and m['value'] > 0 and it['value'] > 0:
+            # the mismatching constant used as an array length inside a type string
+            for ts in ('char[%s]', 'int(*)[%s]', 'void(*)(short[2][%s])'):
+                ts = ts % it['name']
+                rep.stat('M_constants_as_array_length')
+                try:
+                    r = ('ok', repr(M.ffi.typeof(ts)))
+                except errs as e:
+                    r = ('err',)
+                except Exception as e:
+                    r = ('other', type(e).__name__, str(e)[:160])
+                if r[0] == 'ok':
+                    rep.bad('mismatch-not-detected:const:as-array-length', 'cdef %s disagrees '
+                            'with the C source but typeof(%r) gave %s' % (decl, ts, r[1]), detail)
+                elif r[0] == 'other':
+                    rep.bad('mismatch-wrong-exception:const', 'typeof(%r): %r' % (ts, r), detail)
         # with '...': silently the compiler's layout / value.  A field whose *own*
         # declared size is wrong (retyped / resized array) is still reported by cffi
         # in a partial struct ('...' only frees offsets and total size): not judged.
